@@ -96,6 +96,10 @@ def run(repo: Repo, rep: Report, tier: str) -> None:
     su = conv.functions.get("_structure_union")
     if su is None:
         raise AnalysisError("anchor vanished: _structure_union")
+    if not any(isinstance(c, ast.Call) and (dotted(c.func) or "").endswith("is_dataclass") for c in ast.walk(su.node)):
+        from sa.flatten import flatten as _fl14u
+
+        su = _fl14u(su)  # the variant classification was moved into a helper (`a, b, c = _partition_union_variants(args)`)
     cfg = CFG(su.node)
     dom = cfg.dominators()
     L = Locals(su.node)
